@@ -301,7 +301,110 @@ def run_greenback(req):
         for f in st.frames:
             if f.pyframe.f_code is greenback.await_.__code__ and not f.hide:
                 obs.append({"kind": "await_bridge_not_hidden", "tag": tag})
-        # nothing after the chain except the blocking point's frames (trio internals are pruned/hidden)
+        obs.extend(_bridging_hidden(st, tag))
+    if out["warnings"]:
+        obs.append({"kind": "warnings", "msgs": out["warnings"]})
+    return {"obs": obs[:6], "stats": {"observations": 2, "glets": 0, "from_descendant": 0, "depth": depth}}
+
+
+def _bridging_hidden(st, tag):
+    """'with the bridging internals hidden': every frame between two frames of the generated call chain belongs
+    to the bridge (greenback's await_/trampoline, outcome's send, ...) and must be hidden."""
+    idx = [i for i, f in enumerate(st.frames) if f.filename == HERE and f.funcname in ("sync_fn", "async_fn")]
+    out = []
+    if idx:
+        for i in range(idx[0], idx[-1]):
+            f = st.frames[i]
+            if i not in idx and not f.hide:
+                out.append({"kind": "bridging_internal_not_hidden", "tag": tag, "frame": f.funcname,
+                            "module": f.modname, "all": [[x.funcname, x.hide] for x in st.frames]})
+                break
+    return out
+
+
+def run_greenback_asyncio(req):
+    """greenback under asyncio, where coroutines are resumed with throw(): every async level first awaits a
+    future that fails (after a real suspension) and catches the error, so the bridge last resumed it through the
+    error path; then the chain goes one level deeper.  Inspected from inside (innermost level) and from outside."""
+    import asyncio
+    import greenback
+    depth = req["depth"]
+    levels = []
+    state = {}
+
+    class E(Exception):
+        pass
+
+    async def fail_later():
+        loop = asyncio.get_running_loop()
+        fut = loop.create_future()
+        loop.call_soon(fut.set_exception, E("x"))
+        await fut
+
+    def make_sync(i):
+        def sync_fn():
+            levels.append(sys._getframe())
+            if i == depth:
+                state["inside"] = extract(state["coro"])
+                state["inside_levels"] = list(levels)
+                state["parked"].set()
+                greenback.await_(state["release"].wait())
+                return
+            greenback.await_(make_async(i + 1)())
+        return sync_fn
+
+    def make_async(i):
+        async def async_fn():
+            levels.append(sys._getframe())
+            if req.get("error_resume", True):
+                try:
+                    await fail_later()
+                except E:
+                    pass
+            if i == depth:
+                state["inside"] = extract(state["coro"])
+                state["inside_levels"] = list(levels)
+                state["parked"].set()
+                await state["release"].wait()
+                return
+            make_sync(i + 1)()
+        return async_fn
+
+    out = {}
+
+    async def main():
+        state["parked"] = asyncio.Event()
+        state["release"] = asyncio.Event()
+
+        async def runner():
+            await greenback.ensure_portal()
+            state["coro"] = asyncio.current_task().get_coro()
+            await make_async(0)()
+
+        t = asyncio.ensure_future(runner())
+        await asyncio.wait_for(state["parked"].wait(), 30)
+        with warnings.catch_warnings(record=True) as w:
+            warnings.simplefilter("always")
+            out["outside"] = extract(t.get_coro())
+        out["warnings"] = [str(x.message)[:150] for x in w]
+        out["levels"] = list(levels)
+        state["release"].set()
+        await asyncio.wait_for(t, 30)
+
+    try:
+        asyncio.run(main())
+    except BaseException as ex:
+        return {"harness_error": "asyncio greenback scenario failed: %r" % (ex,)}
+    obs = []
+    for tag, st, lv in (("asyncio-outside", out["outside"], out["levels"]),
+                        ("asyncio-inside", state["inside"], state["inside_levels"])):
+        if st.error is not None:
+            obs.append({"kind": "error", "tag": tag, "exc": repr(st.error)})
+        mine = [f.pyframe for f in st.frames if f.filename == HERE and f.funcname in ("sync_fn", "async_fn")]
+        if mine != lv:
+            obs.append({"kind": "bridge_chain", "tag": tag, "got": [f.f_code.co_name for f in mine],
+                        "exp": [f.f_code.co_name for f in lv], "all": [[f.funcname, f.hide] for f in st.frames]})
+        obs.extend(_bridging_hidden(st, tag))
     if out["warnings"]:
         obs.append({"kind": "warnings", "msgs": out["warnings"]})
     return {"obs": obs[:6], "stats": {"observations": 2, "glets": 0, "from_descendant": 0, "depth": depth}}
@@ -309,6 +412,8 @@ def run_greenback(req):
 
 def handle(req):
     op = req["op"]
+    if op == "green.greenback_asyncio":
+        return run_greenback_asyncio(req)
     if op == "green.chain":
         return run_chain(req)
     if op == "green.other_thread":
